@@ -8,7 +8,7 @@
 (* per trace is printed by an always-true reporting invariant, so a trace  *)
 (* is still checked after a failed clause.                                 *)
 (***************************************************************************)
-EXTENDS Integers, Sequences, FiniteSets, TLC, Json, IOUtils, ObsMetric
+EXTENDS Integers, Sequences, FiniteSets, TLC, Json, IOUtils, ObsMetric, ObsFit
 
 Batch  == JsonDeserialize(IOEnv.TRACE_FILE)
 Traces == Batch.traces
@@ -24,6 +24,8 @@ Step(s, ev) ==
   CASE ev.ev = "Model"  -> Res([s EXCEPT !.phase = "fitted", !.L = ev.L], {}, {})
     [] ev.ev = "Triple" -> Res(s, TripleFails(s.L, ev), TripleEx)
     [] ev.ev = "Views"  -> Res(s, ViewsFails(s.L, ev), ViewsEx(ev))
+    [] ev.ev = "Fit"    -> Res(IF ev.exc = "" THEN [s EXCEPT !.phase = "fitted", !.L = ev.L] ELSE s,
+                               FitFails(ev), FitEx)
     [] OTHER            -> Res(s, {"TRACE.unknown_event"}, {})
 
 Init == /\ tid \in 1..Len(Traces)
